@@ -1,58 +1,47 @@
 (* C28 — Stored transactions only contain well-formed postings (machine-script path).
-   Statements only; proofs in Machine/SemProofs.v. Recognisers valid_address / valid_asset / lexer_asset
-   (Machine/Lex.v) are tied to pkg/accounts.Regexp, pkg/assets.Regexp and the ASSET lexer rule by the tie `nslex`. *)
+   Statements only; proofs in Machine/SemProofs.v, EnvProofs.v, RunProofs.v. Recognisers valid_address / valid_asset /
+   lexer_asset (Machine/Lex.v) are tied to pkg/accounts.Regexp, pkg/assets.Regexp and the ASSET lexer rule by the tie `nslex`. *)
 From Coq Require Import List ZArith QArith String Bool.
-From LV Require Import Machine.Syntax Machine.Allot Machine.Lex Machine.Sem Machine.SemProofs.
+From LV Require Import Machine.Syntax Machine.Allot Machine.Lex Machine.Sem Machine.SemProofs Machine.EnvProofs Machine.RunProofs.
 Import ListNotations.
 Open Scope Z_scope.
 Open Scope string_scope.
 
-(* FULL STATEMENT (refuted below): every posting of a successful run has valid source/destination addresses,
-   a valid asset and a non-negative amount.
+Definition wellformed (q : npost) : Prop :=
+  valid_address (psrc q) = true /\ valid_address (pdst q) = true /\ valid_asset (passet q) = true /\ 0 <= pamt q.
 
-   Proved (C28_partial): every posting has a non-negative amount and carries exactly the asset the statement's
-   monetary evaluates to ([mon_asset]: the asset of its left-most operand); when that operand is a LITERAL
-   [S n] the asset of every posting is the literal text S itself (C28_literal_asset) — accepted by the compiler
-   as soon as the lexer rule [A-Z/0-9]+ matches, never compared with the asset pattern; when it comes from a
-   plain variable, SetVarsFromJSON has validated it (C28_variables_validated). *)
-Theorem C28_partial : forall p given s r, run p given s = Ok r ->
-  exists e, Forall2 (fun st ps =>
-    match st with
-    | Send m _ _ => Forall (fun q => passet q = mon_asset e m /\ 0 <= pamt q) ps
-    | SendAll _ _ _ => exists A, Forall (fun q => passet q = A /\ 0 <= pamt q) ps
-    | _ => ps = []
-    end) (pstmts p) (rposts r).
+(* every posting of every successful run of the (repaired: fixes/02) machine has a source and a destination matching
+   the address pattern (literals: the lexer recogniser; variables and meta() values: validation), an asset matching
+   the asset pattern (literals are now validated at compile time; variables, monetary variables, balance()
+   assets: validation) and a non-negative amount *)
+Theorem C28_wellformed : forall p given s r, run p given s = Ok r -> Forall wellformed (all_postings r).
 Proof.
-  intros p given s r H. destruct (run_guarantee _ _ _ _ H) as [e HF]. exists e.
-  eapply (Forall2_strengthen _ _ (fun _ => True)); [exact HF|apply Forall_forall; intros; exact I|].
-  intros st ps _ Hg. destruct st; simpl in *; try assumption.
-  - destruct Hg as [A [x [_ [HA [[Hf _] _]]]]]. subst A. assumption.
-  - destruct Hg as [f [b [b1 [_ [_ [[Hf _] _]]]]]]. exists (fasset f). assumption.
+  intros p given s r H. destruct (run_guarantee _ _ _ _ H) as [e HF]. unfold all_postings.
+  induction HF as [|st ps l L Hg _ IH]; simpl; [constructor|]. apply Forall_app. split; [|exact IH].
+  destruct st; simpl in Hg; try (subst ps; constructor).
+  - destruct Hg as [A [x [_ [_ [HA [Hf _]]]]]]. eapply Forall_impl; [|exact Hf].
+    intros q [H1 [H2 [H3 H4]]]. unfold wellformed. rewrite H1. auto.
+  - destruct Hg as [f [b [b1 [_ [_ [_ [HA [Hf _]]]]]]]]. eapply Forall_impl; [|exact Hf].
+    intros q [H1 [H2 [H3 H4]]]. unfold wellformed. rewrite H1. auto.
 Qed.
-Print Assumptions C28_partial.
+Print Assumptions C28_wellformed.
 
-Theorem C28_literal_asset : forall e m s n, leftmost m = MonLit (AssetLit s) n -> mon_asset e m = s.
-Proof. exact literal_statement_asset. Qed.
-Print Assumptions C28_literal_asset.
+(* the environment of a run: declared variables hold values of their type that passed validation *)
+Theorem C28_environment_valid : forall p given s r, run p given s = Ok r ->
+  exists te e ms, chk_vars [] (pvars p) = Some te /\ Forall (fun st => chk_stmt te st = true) (pstmts p) /\
+                  cons_env te e /\ env_valid e /\
+                  exec_stmts e (pstmts p) (init_state (rinit r)) = Ok ms /\
+                  rposts r = mposts ms /\ rbal r = mbal ms /\ rsaved r = msaved ms.
+Proof. exact run_inv. Qed.
+Print Assumptions C28_environment_valid.
 
-Theorem C28_variables_validated : forall decls given, set_vars decls given = true ->
-  forall d, In d decls -> vorigin d = ONone ->
-  exists v, lookup given (vname d) = Some v /\ ty_of v = ty_of v /\ validate_value v = true.
-Proof. exact set_vars_valid. Qed.
-Print Assumptions C28_variables_validated.
-
-(* Refutation (suspect S-28, replayed on the real code: known finding KF-C28-literal-asset):
-     send [USD//2 10] ( source = @world  destination = @a )
-   compiles (the lexer accepts USD//2), runs, and yields a posting whose asset fails assets.IsValid. *)
-Definition c28_witness : program :=
-  {| pvars := []; pstmts := [ Send (MonLit (AssetLit "USD//2") 10) (VSrc (SAccount (AccLit "world") OdNone)) (DAccount (AccLit "a")) ] |}.
-
-Theorem C28_refuted_literal :
-  check c28_witness = true /\ lexer_asset "USD//2" = true /\ valid_asset "USD//2" = false /\
-  exists r, run c28_witness [] {| st_bal := []; st_meta := [] |} = Ok r /\
-            all_postings r = [ {| psrc := "world"; pdst := "a"; passet := "USD//2"; pamt := 10 |} ].
-Proof. repeat split; try (vm_compute; reflexivity). eexists. split; vm_compute; reflexivity. Qed.
-Print Assumptions C28_refuted_literal.
+(* regression of KF-C28-literal-asset (fixes/02, suspect S-28): a literal the lexer accepts but the asset pattern
+   rejects is now a compile error *)
+Example C28_literal_asset_rejected :
+  lexer_asset "USD//2" = true /\ valid_asset "USD//2" = false /\
+  run {| pvars := []; pstmts := [ Send (MonLit (AssetLit "USD//2") 10) (VSrc (SAccount (AccLit "world") OdNone)) (DAccount (AccLit "a")) ] |}
+      [] {| st_bal := []; st_meta := [] |} = Err ECompile.
+Proof. repeat split; vm_compute; reflexivity. Qed.
 
 (* non-vacuity: the recognisers on representative strings *)
 Example C28_example :
